@@ -438,6 +438,12 @@ def rule_store(u, rep):
         ok = any(any(e[0] == "TryErr" and mentions(e[2], is_ser) for e in p.events) for p in errs)
         # ... or through an explicit `Err(e) => Err(e)` arm over the result of serialize
         ok = ok or any(any(c[0] == "variant" and c[2] == RESULT and c[3] == 1 and mentions(c[1], is_ser) for c in p.conds) and mentions(p.value, is_ser) for p in errs)
+        # ... or because the Result of serialize, at most mapped on its Ok side, is what store returns
+        def passes_on(v):
+            while isinstance(v, tuple) and v and v[0] == "call" and v[1] in ("map", "and_then", "map_err") and v[2]:
+                v = v[2][0]
+            return isinstance(v, tuple) and bool(v) and is_ser(v)
+        ok = ok or any(p.kind == "ret" and passes_on(p.value) for p in paths)
         rep.oblige(ok)
         if not ok:
             rep.add("STORE", "propagate", "store does not propagate a failure of serialize", b.loc())
@@ -802,6 +808,27 @@ def rule_partial_leak(u, rep, scope_files, crate="epserde", rule="LEAK-PARTIAL")
         if not loops:
             continue
         cleans_up = any(dj.get("name") in ("drop_in_place",) for dj, _r, _e in whole)
+        if not cleans_up:
+            # ... or inside a closure of this function (`(0..i).for_each(|j| drop_in_place(p.add(j)))`)
+            clos = []
+
+            def find_closures(e):
+                if isinstance(e, dict):
+                    if e.get("k") == "Closure" and "d" in e:
+                        clos.append(b.crate.def_id(e["d"]))
+                    for v in e.values():
+                        find_closures(v)
+                elif isinstance(e, list):
+                    for v in e:
+                        find_closures(v)
+            find_closures(b.thir["root"])
+            for cid in clos:
+                cb_ = u.bodies.get(cid)
+                if cb_ is not None and cb_.thir is not None:
+                    inner_c = []
+                    rules_err.calls_in(cb_.crate, cb_.thir["root"], inner_c)
+                    if any(d2.get("name") == "drop_in_place" for d2, _r2, _e2 in inner_c):
+                        cleans_up = True
         if not cleans_up:
             # ... or through a helper of the crate that does (one or two levels down)
             def drops_inside(did, depth=0):
